@@ -32,6 +32,8 @@ func runTypeCheck(eng *Engine, name string) []*Obligation {
 	switch {
 	case strings.HasPrefix(name, "wiring:"):
 		return wiringObligations(eng, strings.TrimPrefix(name, "wiring:"))
+	case strings.HasPrefix(name, "iterfresh:"):
+		return iterFreshObligations(eng, strings.TrimPrefix(name, "iterfresh:"))
 	case strings.HasPrefix(name, "guarded:"):
 		return guardedClosureObligations(eng, strings.TrimPrefix(name, "guarded:"))
 	case strings.HasPrefix(name, "callers:"):
@@ -501,4 +503,91 @@ func guardedClosureObligations(eng *Engine, spec string) []*Obligation {
 		}
 	}
 	return []*Obligation{mkOb(name, "guarded", "the function literal "+clo+" is only ever passed to "+callee, n > 0 && bad == "", bad+fmt.Sprintf(" (%d creation sites)", n), props)}
+}
+
+// iterFreshObligations: "function:callee:argIndex[@props]" — at every call of `callee` inside a loop of `function`,
+// the slice passed as argument argIndex is built (through appends, re-slices and phis) only from backing arrays
+// allocated inside that loop's body: each iteration hands over its own array, none is shared with another
+// iteration. (The engine's memory model has no slice capacity, so it cannot see such sharing by itself.)
+func iterFreshObligations(eng *Engine, spec string) []*Obligation {
+	var props []string
+	if j := strings.Index(spec, "@"); j >= 0 {
+		props = strings.Split(spec[j+1:], ",")
+		spec = spec[:j]
+	}
+	parts := strings.Split(spec, ":")
+	name := "iterfresh[" + spec + "]"
+	if len(parts) != 3 {
+		return []*Obligation{mkOb(name, "iterfresh", "iterfresh:<function>:<callee>:<arg>", false, "malformed", props)}
+	}
+	fn := eng.fnByShort(parts[0])
+	argIdx := 0
+	fmt.Sscanf(parts[2], "%d", &argIdx)
+	if fn == nil || fn.Blocks == nil {
+		return []*Obligation{mkOb(name, "iterfresh", "function exists", false, "no function "+parts[0], props)}
+	}
+	li := eng.loops(fn)
+	n, bad := 0, ""
+	for _, b := range fn.Blocks {
+		for _, in := range b.Instrs {
+			ci, ok := in.(ssa.CallInstruction)
+			if !ok || callSiteName(ci.Common()) != parts[1] {
+				continue
+			}
+			// innermost loop containing the call
+			loop := 0
+			for k, body := range li.bodies {
+				if body[b] && (loop == 0 || len(body) < len(li.bodies[loop])) {
+					loop = k
+				}
+			}
+			if loop == 0 {
+				continue
+			}
+			n++
+			args := ci.Common().Args
+			if !ci.Common().IsInvoke() && ci.Common().Signature().Recv() != nil {
+				args = args[1:]
+			}
+			if argIdx >= len(args) {
+				bad = "no such argument"
+				continue
+			}
+			seen := map[ssa.Value]bool{}
+			var walk func(v ssa.Value)
+			walk = func(v ssa.Value) {
+				if seen[v] {
+					return
+				}
+				seen[v] = true
+				switch x := v.(type) {
+				case *ssa.Phi:
+					for _, e := range x.Edges {
+						walk(e)
+					}
+				case *ssa.Slice:
+					walk(x.X)
+				case *ssa.Call:
+					if bi, ok := x.Call.Value.(*ssa.Builtin); ok && bi.Name() == "append" {
+						walk(x.Call.Args[0])
+						return
+					}
+					bad = "built from the result of a call: " + callSiteName(&x.Call)
+				case *ssa.Alloc:
+					if !li.bodies[loop][x.Block()] {
+						bad = "backing array allocated outside the loop (" + x.Comment + ")"
+					}
+				case *ssa.MakeSlice:
+					if !li.bodies[loop][x.Block()] {
+						bad = "backing array made outside the loop"
+					}
+				case *ssa.Const:
+				default:
+					bad = fmt.Sprintf("built from %T", v)
+				}
+			}
+			walk(args[argIdx])
+		}
+	}
+	return []*Obligation{mkOb(name, "iterfresh", fmt.Sprintf("the slice handed to %s in a loop of %s is built only from arrays allocated in that iteration", parts[1], parts[0]), n > 0 && bad == "", fmt.Sprintf("%s (%d call sites in loops)", bad, n), props)}
 }
